@@ -30,38 +30,38 @@ package regattaserver
 //@ ghostfield any.scalls Int
 //@ iface regattaserver.KVService.Range
 //@   assumed
-//@   params s, ctx, req
+//@   params s, ctx, rq
 //@   results resp, err
-//@   requires [C16.pre.range] !malformedRange(req) && !unsupportedRange(req)
+//@   requires [C16.pre.range] !malformedRange(rq) && !unsupportedRange(rq)
 //@   ensures s.scalls == old(s.scalls) + 1 && (err == nil ==> resp != nil)
 //@   modifies s.scalls
 //@ iface regattaserver.KVService.IterateRange
 //@   assumed
-//@   params s, ctx, req
+//@   params s, ctx, rq
 //@   results resp, err
-//@   requires [C16.pre.iterate] !malformedRange(req) && !unsupportedRange(req)
+//@   requires [C16.pre.iterate] !malformedRange(rq) && !unsupportedRange(rq)
 //@   ensures s.scalls == old(s.scalls) + 1 && s.lastSeq == resp
 //@   modifies s.scalls, s.lastSeq
 //@ iface regattaserver.KVService.Put
 //@   assumed
-//@   params s, ctx, req
+//@   params s, ctx, rq
 //@   results resp, err
-//@   requires [C16.pre.put] !malformedPut(req)
+//@   requires [C16.pre.put] !malformedPut(rq)
 //@   ensures s.scalls == old(s.scalls) + 1 && (err == nil ==> resp != nil)
 //@   modifies s.scalls
 //@ iface regattaserver.KVService.Delete
 //@   assumed
-//@   params s, ctx, req
+//@   params s, ctx, rq
 //@   results resp, err
-//@   requires [C16.pre.delete] !malformedDelete(req)
+//@   requires [C16.pre.delete] !malformedDelete(rq)
 //@   ensures s.scalls == old(s.scalls) + 1 && (err == nil ==> resp != nil)
 //@   modifies s.scalls
 //@ iface regattaserver.KVService.Txn
 //@   assumed
-//@   params s, ctx, req
+//@   params s, ctx, rq
 //@   results resp, err
-//@   requires [C16.pre.txn] req != nil && len(req.Table) > 0
-//@   requires [C16.pre.txn.nested] !malformedTxn(req)
+//@   requires [C16.pre.txn] rq != nil && len(rq.Table) > 0
+//@   requires [C16.pre.txn.nested] !malformedTxn(rq)
 //@   ensures s.scalls == old(s.scalls) + 1 && (err == nil ==> resp != nil)
 //@   modifies s.scalls
 
@@ -81,6 +81,7 @@ package regattaserver
 //@   ensures [C16.reject.unimpl]  unsupportedRange(req) && !malformedRange(req) ==> codeOf(err) == cUnimplemented
 //@   ensures [C16.codes.range]    err != nil ==> codeOf(err) == cInvalidArgument || codeOf(err) == cUnimplemented || codeOf(err) == cNotFound || codeOf(err) == cUnavailable || codeOf(err) == cFailedPrecondition
 //@   ensures [C16.once.range]     s.Storage.scalls <= old(s.Storage.scalls) + 1
+//@   before regattaserver.KVService.Range assert [C10.api.range.asis+C09] rq == req      // the caller's request reaches the storage as it is - consistency level and all
 //@   modifies s.Storage.scalls
 
 // KVServer.IterateRange: the same refusals as Range, before the storage is touched; then every chunk
@@ -132,6 +133,7 @@ package regattaserver
 //@   ensures [C16.reject.iterate] malformedRange(req) || unsupportedRange(req) ==> err != nil && s.Storage.scalls == old(s.Storage.scalls) && srv.nsent == 0 && (codeOf(err) == cInvalidArgument || codeOf(err) == cUnimplemented)
 //@   ensures [C16.codes.iterate]  err != nil ==> codeOf(err) == cInvalidArgument || codeOf(err) == cUnimplemented || codeOf(err) == cNotFound || codeOf(err) == cUnavailable || codeOf(err) == cFailedPrecondition || codeOf(err) == cInternal
 //@   ensures [C09.serve.order] forall i int :: 0 <= i && i < srv.nsent ==> srv.sentm[i] == seqItem(s.Storage.lastSeq, i)
+//@   before regattaserver.KVService.IterateRange assert [C10.api.iterate.asis+C09] rq == req      // the caller's request reaches the storage as it is - consistency level and all
 //@   modifies s.Storage.scalls, s.Storage.lastSeq, srv.nsent, srv.sentm, family(G_any_npull), family(G_any_drained)
 //@   loop 0 invariant srv.nsent == pull.npull && pull.pseq == s.Storage.lastSeq && pull != nil && ctx != nil
 //@   loop 0 invariant forall i int :: 0 <= i && i < srv.nsent ==> srv.sentm[i] == seqItem(s.Storage.lastSeq, i)
@@ -141,6 +143,7 @@ package regattaserver
 //@   requires s != nil && s.Storage != nil
 //@   ensures [C16.reject.put] malformedPut(req) ==> err != nil && codeOf(err) == cInvalidArgument && s.Storage.scalls == old(s.Storage.scalls)
 //@   ensures [C16.codes.put]  err != nil ==> codeOf(err) == cInvalidArgument || codeOf(err) == cNotFound || codeOf(err) == cUnavailable || codeOf(err) == cFailedPrecondition
+//@   before regattaserver.KVService.Put assert [C10.api.put.asis] rq == req      // the caller's request reaches the storage as it is - consistency level and all
 //@   modifies s.Storage.scalls
 
 //@ func (*KVServer).DeleteRange
@@ -148,6 +151,7 @@ package regattaserver
 //@   requires s != nil && s.Storage != nil
 //@   ensures [C16.reject.delete] malformedDelete(req) ==> err != nil && codeOf(err) == cInvalidArgument && s.Storage.scalls == old(s.Storage.scalls)
 //@   ensures [C16.codes.delete]  err != nil ==> codeOf(err) == cInvalidArgument || codeOf(err) == cNotFound || codeOf(err) == cUnavailable || codeOf(err) == cFailedPrecondition
+//@   before regattaserver.KVService.Delete assert [C10.api.delete.asis] rq == req      // the caller's request reaches the storage as it is - consistency level and all
 //@   modifies s.Storage.scalls
 
 //@ func (*KVServer).Txn
@@ -155,6 +159,7 @@ package regattaserver
 //@   requires s != nil && s.Storage != nil
 //@   ensures [C16.reject.txn] req == nil || len(req.Table) == 0 ==> err != nil && codeOf(err) == cInvalidArgument && s.Storage.scalls == old(s.Storage.scalls)
 //@   ensures [C16.codes.txn]  err != nil ==> codeOf(err) == cInvalidArgument || codeOf(err) == cNotFound || codeOf(err) == cUnavailable || codeOf(err) == cFailedPrecondition
+//@   before regattaserver.KVService.Txn assert [C10.api.txn.asis] rq == req      // the caller's request reaches the storage as it is - consistency level and all
 //@   modifies s.Storage.scalls
 
 // ---------------------------------------------------------------- follower API (C11, C16)
